@@ -263,7 +263,7 @@ def check(text, dialect, cfg):
                 out.append(("symbol-string-multiline", repr(t.text[:60])))
                 break
     else:
-        if not text.endswith("END" + (";" if cfg["end_delimiter"] else "")):
+        if not text.rstrip("\r\n").endswith("END" + (";" if cfg["end_delimiter"] else "")):
             out.append(("final-END", f"text ends with {text[-12:]!r}"))
 
     kw = KEYWORDS[dialect]
@@ -333,9 +333,9 @@ def check(text, dialect, cfg):
         target = indent * key[1] + max(len(n) for _, n, _, _ in members) + 1
         cols = [(c, n) for c, n, length, one_line in members
                 if one_line and length + (target - c) <= width]
-        if any(c != target for c, _ in cols):
+        if len({c for c, _ in cols}) > 1:
             out.append(("equals-alignment",
-                        f"sibling one-line assignments have '=' in columns {cols}, "
-                        f"expected column {target} (they fit in width {width})"))
+                        f"sibling one-line assignments have '=' in columns {cols} "
+                        f"although each fits in width {width} when aligned"))
             break
     return out
